@@ -78,7 +78,7 @@ static void one_case(Rng& r, const std::string& tier, int minorder) {
   // knots and abscissae, but differs from there on (a stretched copy) — whatever is derived per axis must be derived from
   // the whole axis
   bool sibling = p.nd >= 2 && r.coin(1, 3) && p.ord[1] == p.ord[0] && extra[1] == extra[0];
-  if (!sibling && p.nd >= 2 && r.coin(1, 3)) { uint32_t o = std::min(p.ord[0], p.ord[1]); int e = std::min(extra[0], extra[1]); p.ord[0] = p.ord[1] = o; extra[0] = extra[1] = e; sibling = true; }
+  if (!sibling && p.nd >= 2 && r.coin(1, 2)) { uint32_t o = std::min(p.ord[0], p.ord[1]); int e = std::min(extra[0], extra[1]); p.ord[0] = p.ord[1] = o; extra[0] = extra[1] = e; sibling = true; }
   if (sibling) stats["sibling_axes_problems"]++;
   stats["knotstyle_" + std::to_string(kstyle)]++;
   stats["ndim_" + std::to_string(p.nd)]++;
@@ -107,14 +107,16 @@ static void one_case(Rng& r, const std::string& tier, int minorder) {
     if (sibling && d == 1 && p.coords[0].size() >= 3) {
       // the stretched copy of axis 0 (generated above only to keep the stream of random numbers in step)
       const std::vector<double>& k0 = p.kn[0]; std::vector<double>& k1 = p.kn[1];
-      double f = kstyle == 1 ? 1.5 : 1.25 + r.unit();
+      // a gentle stretch about the second knot, the same for knots and abscissae: the geometry (which abscissa lies in which
+      // knot interval) is that of axis 0, so the problem is as well-posed as it was, but every basis value differs
+      double f = kstyle == 1 ? 1.0625 : 1.05 + 0.05 * r.unit();
       for (size_t i = 0; i < k1.size(); i++) k1[i] = i < 2 ? k0[i] : k0[1] + (k0[i] - k0[1]) * f;
       std::vector<double> s0 = p.coords[0]; bool sorted0 = std::is_sorted(s0.begin(), s0.end());
       xs = s0;
-      for (size_t j = 2; j < xs.size(); j++) xs[j] = s0[1] + (s0[j] - s0[1]) * f;
+      for (size_t j = 2; j < xs.size(); j++) xs[j] = k0[1] + (s0[j] - k0[1]) * f;
       double lo1 = k1[p.ord[1]], hi1 = k1[k1.size() - p.ord[1] - 1];
       for (auto& x : xs) { if (x < lo1) x = lo1; if (x >= hi1) x = lo1 + (hi1 - lo1) * 0.999; }
-      if (kstyle == 1) for (size_t j = 2; j < xs.size(); j++) xs[j] = std::floor(xs[j] * 64) / 64.0;
+      if (kstyle == 1) for (size_t j = 2; j < xs.size(); j++) xs[j] = std::floor(xs[j] * 1024) / 1024.0;
       (void)sorted0;
       p.coords.push_back(xs);
       continue;
